@@ -239,4 +239,180 @@ theorem pathUnescapeL_self_no_percent (s : Bytes) (h : pathUnescapeL s = some s)
   have := (pathUnescapeL_length s s h).2 hm
   omega
 
+
+/-! ### `escapeInvalid`: the received spelling with only the forbidden octets encoded -/
+
+theorem invalid_shouldEscape {c : Char} (h : validPathChar c = false) : shouldEscapePath c = true := by
+  unfold validPathChar at h
+  simp only [Bool.or_eq_false_iff, Bool.not_eq_false'] at h
+  exact h.2
+
+theorem validPathChar_percent : validPathChar '%' = true := by decide
+
+theorem isHex_valid : ∀ c : Char, isHex c = true → validPathChar c = true := by
+  intro c h
+  have hne : shouldEscapePath c = false := by
+    unfold isHex at h
+    unfold shouldEscapePath isAlnum
+    simp only [Bool.or_eq_true, Bool.and_eq_true, decide_eq_true_eq] at h
+    rcases h with (h | h) | h
+    · simp [h.1, h.2]
+    · have h1 : 'a' ≤ c := h.1
+      have h2 : c ≤ 'z' := Char.le_trans h.2 (by decide)
+      simp [h1, h2]
+    · have h1 : 'A' ≤ c := h.1
+      have h2 : c ≤ 'Z' := Char.le_trans h.2 (by decide)
+      simp [h1, h2]
+  simp [validPathChar, hne]
+
+theorem escapeInvalid_valid (p : Bytes) : validEncodedPath (escapeInvalid p) = true := by
+  induction p with
+  | nil => rfl
+  | cons c t ih =>
+    unfold escapeInvalid
+    by_cases h : validPathChar c = true
+    · simp only [h, if_true, validEncodedPath, List.all_cons, Bool.true_and]
+      simpa [validEncodedPath] using ih
+    · have h' : validPathChar c = false := by simpa using h
+      have hl := shouldEscapePath_lt (invalid_shouldEscape h')
+      have h1 : c.toNat / 16 < 16 := by omega
+      have h2 : c.toNat % 16 < 16 := by omega
+      simp only [h', Bool.false_eq_true, if_false, pctEncode, List.cons_append, List.nil_append, validEncodedPath,
+        List.all_cons]
+      rw [(hexDigit_ok _ h1).2.2.1, (hexDigit_ok _ h2).2.2.1, validPathChar_percent]
+      simpa [validEncodedPath] using ih
+
+theorem escapeInvalid_id (p : Bytes) (h : validEncodedPath p = true) : escapeInvalid p = p := by
+  induction p with
+  | nil => rfl
+  | cons c t ih =>
+    simp only [validEncodedPath, List.all_cons, Bool.and_eq_true] at h
+    unfold escapeInvalid
+    simp only [h.1, if_true]
+    rw [ih (by simpa [validEncodedPath] using h.2)]
+
+theorem escapeInvalid_eq_nil (p : Bytes) (h : escapeInvalid p = []) : p = [] := by
+  cases p with
+  | nil => rfl
+  | cons c t =>
+    unfold escapeInvalid at h
+    split at h <;> simp [pctEncode] at h
+
+/-- every escape of the client decodes as before, every encoded octet decodes to itself -/
+theorem escapeInvalid_decodes (p d : Bytes) (h : pathUnescapeL p = some d) :
+    pathUnescapeL (escapeInvalid p) = some d := by
+  induction p using pathUnescapeL.induct generalizing d with
+  | case1 => simpa [escapeInvalid] using h
+  | case2 x y rest hh ih =>
+    have hx : isHex x = true := by simp_all
+    have hy : isHex y = true := by simp_all
+    rw [pathUnescapeL_esc x y hx hy] at h
+    cases hr : pathUnescapeL rest with
+    | none => simp [hr] at h
+    | some r =>
+      simp only [hr, Option.map_some, Option.some.injEq] at h
+      subst h
+      have e : escapeInvalid ('%' :: x :: y :: rest) = '%' :: x :: y :: escapeInvalid rest := by
+        simp [escapeInvalid, validPathChar_percent, isHex_valid x hx, isHex_valid y hy]
+      rw [e, pathUnescapeL_esc x y hx hy, ih r hr]
+      rfl
+  | case3 x y rest hh => simp [pathUnescapeL, hh] at h
+  | case4 t hnot => rw [pathUnescapeL_none_of_short t hnot] at h; simp at h
+  | case5 c t hc ih =>
+    rw [pathUnescapeL_cons_ne hc] at h
+    cases hr : pathUnescapeL t with
+    | none => simp [hr] at h
+    | some r =>
+      simp only [hr, Option.map_some, Option.some.injEq] at h
+      subst h
+      unfold escapeInvalid
+      by_cases hv : validPathChar c = true
+      · simp only [hv, if_true]
+        rw [pathUnescapeL_cons_ne hc, ih r hr]; rfl
+      · have hv' : validPathChar c = false := by simpa using hv
+        have hl := shouldEscapePath_lt (invalid_shouldEscape hv')
+        have h1 : c.toNat / 16 < 16 := by omega
+        have h2 : c.toNat % 16 < 16 := by omega
+        simp only [hv', Bool.false_eq_true, if_false, pctEncode, List.cons_append, List.nil_append]
+        rw [pathUnescapeL_esc _ _ (hexDigit_ok _ h1).1 (hexDigit_ok _ h2).1, ih r hr, octet_pct c hl]
+        rfl
+
+/-- the two characters an encoded slash consists of, at the head of a string -/
+def encSlashAt : Bytes → Bool
+  | a :: b :: _ => a = '2' && (b = 'F' || b = 'f')
+  | _ => false
+
+theorem containsEncodedSlashL_cons (c : Char) (t : Bytes) :
+    containsEncodedSlashL (c :: t) = ((c = '%' && encSlashAt t) || containsEncodedSlashL t) := by
+  conv => lhs; unfold containsEncodedSlashL
+  cases t with
+  | nil => rfl
+  | cons a t' => cases t' <;> rfl
+
+theorem encSlashAt_escapeInvalid (t : Bytes) : encSlashAt (escapeInvalid t) = encSlashAt t := by
+  have hv2 : validPathChar '2' = true := by decide
+  have hvF : validPathChar 'F' = true := by decide
+  have hvf : validPathChar 'f' = true := by decide
+  match t with
+  | [] => rfl
+  | [a] =>
+    unfold escapeInvalid
+    by_cases ha : validPathChar a = true
+    · simp [ha, escapeInvalid, encSlashAt]
+    · have ha' : validPathChar a = false := by simpa using ha
+      simp [ha', escapeInvalid, encSlashAt, pctEncode]
+  | a :: b :: r =>
+    by_cases ha : validPathChar a = true
+    · by_cases hb : validPathChar b = true
+      · simp [escapeInvalid, ha, hb, encSlashAt]
+      · have hb' : validPathChar b = false := by simpa using hb
+        have : b ≠ 'F' ∧ b ≠ 'f' := ⟨fun e => by rw [e, hvF] at hb'; exact Bool.noConfusion hb',
+          fun e => by rw [e, hvf] at hb'; exact Bool.noConfusion hb'⟩
+        simp [escapeInvalid, ha, hb', encSlashAt, pctEncode, this.1, this.2]
+    · have ha' : validPathChar a = false := by simpa using ha
+      have : a ≠ '2' := fun e => by rw [e, hv2] at ha'; exact Bool.noConfusion ha'
+      simp [escapeInvalid, ha', encSlashAt, pctEncode, this]
+
+/-- encoding the forbidden octets neither creates nor removes an encoded slash -/
+theorem containsEncodedSlashL_escapeInvalid (p : Bytes) :
+    containsEncodedSlashL (escapeInvalid p) = containsEncodedSlashL p := by
+  induction p with
+  | nil => rfl
+  | cons c t ih =>
+    rw [containsEncodedSlashL_cons c t]
+    by_cases hv : validPathChar c = true
+    · have e : escapeInvalid (c :: t) = c :: escapeInvalid t := by simp [escapeInvalid, hv]
+      rw [e, containsEncodedSlashL_cons, encSlashAt_escapeInvalid, ih]
+    · have hv' : validPathChar c = false := by simpa using hv
+      have hc : c ≠ '%' := fun e => by rw [e, validPathChar_percent] at hv'; exact Bool.noConfusion hv'
+      have hl := shouldEscapePath_lt (invalid_shouldEscape hv')
+      have h1 : c.toNat / 16 < 16 := by omega
+      have h2 : c.toNat % 16 < 16 := by omega
+      have e : escapeInvalid (c :: t) = '%' :: hexDigit (c.toNat / 16) :: hexDigit (c.toNat % 16) :: escapeInvalid t := by
+        simp [escapeInvalid, hv', pctEncode]
+      have hs : encSlashAt (hexDigit (c.toNat / 16) :: hexDigit (c.toNat % 16) :: escapeInvalid t) = false := by
+        -- `%2F` would be the encoding of `/`, which is allowed in a path
+        unfold encSlashAt
+        by_cases e1 : hexDigit (c.toNat / 16) = '2'
+        · by_cases e2 : hexDigit (c.toNat % 16) = 'F'
+          · exfalso
+            have := octet_pct c hl
+            rw [e1, e2] at this
+            have hsl : c = '/' := by rw [← this]; decide
+            rw [hsl] at hv'
+            revert hv'; decide
+          · by_cases e3 : hexDigit (c.toNat % 16) = 'f'
+            · exfalso
+              have := octet_pct c hl
+              rw [e1, e3] at this
+              have hsl : c = '/' := by rw [← this]; decide
+              rw [hsl] at hv'
+              revert hv'; decide
+            · simp [e2, e3]
+        · simp [e1]
+      rw [e, containsEncodedSlashL_cons, hs]
+      rw [containsEncodedSlashL_cons_ne (isHex_ne_percent (hexDigit_ok _ h1).1),
+        containsEncodedSlashL_cons_ne (isHex_ne_percent (hexDigit_ok _ h2).1), ih]
+      simp [hc]
+
 end Heimdall.ProxyFwd
